@@ -4,6 +4,7 @@
 //	sample: NewSampler(temp,topk,topp,minp) with a scripted random source; one Sample(logits) per scripted draw,
 //	        plus the stage-by-stage trace (topK -> temperature -> softmax -> topP -> minP) obtained by calling the
 //	        unexported stage functions in the order sample() applies them, plus an exp table for the model's oracle.
+//	exp:    float32(math.Exp(float64(x))) for the given arguments (the model's oracle; its hypotheses are tested on it).
 //	seed:   three samplers NewSampler(..., seed): two run the same logit stream (reproducibility), the third only
 //	        yields the draws the generator produces, so that the model can be run with the same draws.
 package main
@@ -89,6 +90,13 @@ func main() {
 	hx.Loop(func(c map[string]any) any {
 		temp, topp, minp, topk := u32(c["temp"]), u32(c["topp"]), u32(c["minp"]), hx.Int(c["topk"])
 		switch c["op"] {
+		case "exp":
+			// the oracle of the model, float32(math.Exp(float64(x))), on arbitrary arguments (hypothesis test)
+			var out [][2]uint32
+			for _, b := range u32s(c["xs"]) {
+				out = append(out, expEntry(math.Float32frombits(b)))
+			}
+			return map[string]any{"exp": out}
 		case "sample":
 			logits := u32s(c["logits"])
 			draws := u32s(c["draws"])
